@@ -27,6 +27,7 @@ import (
 	"fmt"
 	"io"
 	"strconv"
+	"strings"
 	"sync"
 )
 
@@ -150,6 +151,70 @@ func validHeader(v string) bool {
 		// encoding in SPDY. "
 		if r >= 127 || ('A' <= r && r <= 'Z') {
 			return false
+		}
+	}
+	return true
+}
+
+// isTokenByte reports whether b is a tchar of RFC 7230 (DIGIT, ALPHA or
+// one of "!#$%&'*+-.^_`|~").
+func isTokenByte(b byte) bool {
+	switch {
+	case 'a' <= b && b <= 'z', 'A' <= b && b <= 'Z', '0' <= b && b <= '9':
+		return true
+	}
+	return strings.IndexByte("!#$%&'*+-.^_`|~", b) >= 0
+}
+
+// validToken reports whether v is a token of RFC 7230 (1*tchar). Both the
+// request method and header field names must be tokens.
+func validToken(v string) bool {
+	if len(v) == 0 {
+		return false
+	}
+	for i := 0; i < len(v); i++ {
+		if !isTokenByte(v[i]) {
+			return false
+		}
+	}
+	return true
+}
+
+// validHeaderFieldValue reports whether v is a valid header field value
+// of RFC 7230: no control characters (CR and LF included) except HTAB.
+func validHeaderFieldValue(v string) bool {
+	for i := 0; i < len(v); i++ {
+		if b := v[i]; b < ' ' && b != '\t' || b == 0x7f {
+			return false
+		}
+	}
+	return true
+}
+
+// validRequestLineValue reports whether v (request uri or host) can be put
+// on a HTTP/1.x request line or Host header field: no SP, no control
+// characters.
+func validRequestLineValue(v string) bool {
+	for i := 0; i < len(v); i++ {
+		if b := v[i]; b <= ' ' || b == 0x7f {
+			return false
+		}
+	}
+	return true
+}
+
+// validRequestHeader reports whether all field names and values of a
+// request header block can be expressed in a HTTP/1.x message.
+func validRequestHeader(header http.Header) bool {
+	for name, values := range header {
+		// the name of a pseudo header starts with ':'
+		if !validToken(strings.TrimPrefix(name, ":")) {
+			return false
+		}
+		for _, value := range values {
+			if !validHeaderFieldValue(value) {
+				return false
+			}
 		}
 	}
 	return true
